@@ -902,8 +902,37 @@ fn producers(a: usize, b: usize, point: Option<&Point>) -> RunResult {
     // operation `in_flight` was between stamping and enqueueing (or after all of A when nothing fired): A's
     // earlier operations precede B, its later ones follow B, the in-flight one may fall anywhere inside B.
     let mut admissible: Vec<Vec<(u64, String)>> = vec![];
+    // when the action could not run to completion while A was parked (it needs a lock A holds at that point),
+    // B's program overlapped the rest of A's: every interleaving of the two remainders is admissible
+    let overlapped_rest = res.outcome.as_ref().map(|o| o.timed_out || o.blocked_on_lock).unwrap_or(false);
+    fn interleavings(a: &[POp], b: &[POp]) -> Vec<Vec<POp>> {
+        if a.is_empty() {
+            return vec![b.to_vec()];
+        }
+        if b.is_empty() {
+            return vec![a.to_vec()];
+        }
+        let mut out = vec![];
+        for mut t in interleavings(&a[1..], b) {
+            t.insert(0, a[0].clone());
+            out.push(t);
+        }
+        for mut t in interleavings(a, &b[1..]) {
+            t.insert(0, b[0].clone());
+            out.push(t);
+        }
+        out
+    }
     let orders: Vec<Vec<POp>> = match in_flight {
         None => vec![pa.iter().chain(pb.iter()).cloned().collect()],
+        Some(k) if k < pa.len() && overlapped_rest => interleavings(&pa[k..], &pb)
+            .into_iter()
+            .map(|rest| {
+                let mut v: Vec<POp> = pa[..k].to_vec();
+                v.extend(rest);
+                v
+            })
+            .collect(),
         Some(k) if k < pa.len() => (0..=pb.len())
             .map(|pos| {
                 let mut v: Vec<POp> = pa[..k].to_vec();
